@@ -190,6 +190,10 @@ class GslHooks(StdHooks):
                 C.word = self.apply_op(wa, opname[ta]) + self.apply_op(wb, opname[tb])
                 C.entries = {}
                 return 0
+            da = (A.n1, A.n2) if opname[ta] == 'N' else (A.n2, A.n1)
+            db_ = (B.n1, B.n2) if opname[tb] == 'N' else (B.n2, B.n1)
+            if da[1] != db_[0] or (C.n1, C.n2) != (da[0], db_[1]):
+                raise IndexViolation(it.loc(node), 'zgemm operand shapes %s x %s -> %s do not conform (GSL error handler aborts)' % (da, db_, (C.n1, C.n2)))
             MA = self.explicit(A, opname[ta])
             MB = self.explicit(B, opname[tb])
             P = mat_mul(MA, MB)
